@@ -1,8 +1,10 @@
 # run specification for C16 (loaded by checks_config.py)
 CHECK = {'level': 'exploration',
  'rule': 'rapid-generated histories (genesis + 1-7 steps: block of 0-6 transactions / revert of the tip / restart with the application 0-2 '
-         'blocks ahead of the engine) run through the real framework.ABIHandler + statemachine.Executer over in-memory pebble DBs with a scripted '
-         'module (programs of set/overwrite/delete/get over two module stores through fresh and retained store handles, Add/AddUnrevertible '
+         'blocks ahead of the engine / Finalize(tip height - 0..3)) run through the real framework.ABIHandler + statemachine.Executer over in-memory pebble DBs with a scripted '
+         'module (programs of set/overwrite/delete/get and scans Iterate(prefix, limit, reverse) / Range(start, end, limit, reverse) over two '
+         'module stores - 8 prefixes/bounds incl. the whole store, empty and inverted intervals, limits none/1/2/3 - through fresh and retained '
+         'store handles, Add/AddUnrevertible '
          'events, nested context-level and store-level snapshot/restore, success or failure; scripted hooks at all four hook points; dry-run '
          'execute/commit; expected-root and abandon/crash variants), compared after every ABI call with a map model and a naive LIP-0039 '
          'sparse-Merkle reference. Non-trivial = history containing a failing command that set a new key, overwrote one, deleted one and emitted '
@@ -17,15 +19,30 @@ CHECK = {'level': 'exploration',
          'writes from 1-2 places, sometimes beside a failing transaction) or a block of the general generator. For these histories '
          'non-trivial additionally = a reorganisation of depth >= 2 together with the removal of a state-neutral block. Labels count the '
          'removals (Revert / recovery) of a state-neutral block at a height that previously held a state-changing block of an abandoned '
-         'branch, reorg depths, removals at heights that saw 2+/3+ blocks. Distinct by digest of the whole history',
+         'branch, reorg depths, removals at heights that saw 2+/3+ blocks. Third family (TestC16Scans, same oracle): genesis with up to 8 persisted keys, then 2-6 steps, '
+         'mostly blocks built from 1-2 scan scenarios = a write chosen with the model run alongside (delete of a persisted key 56%, overwrite of '
+         'one 24%, creation of a new key 20%) from one place of the block and scans of that store which cover the key (80%) or just miss it from '
+         'a later place: same program, around snapshot/restore, a later transaction that succeeds or fails, a failed writer then a scanner, a '
+         'failing then a succeeding scanner, command pre/post hooks, block before/after hooks, often followed by Get/Has of the key; besides '
+         'general/light blocks, reverts 1-3 deep, restarts 0-3 deep and Finalize episodes (Finalize 0-3 below the tip, then reverts down to / '
+         'through the finalized height or a recovery, then a block). Every scan result the module saw must equal the sorted-map prediction of '
+         'the model. Labels count scans by class (in hook / succeeding / failing command, over a staged delete of a persisted key by the same or '
+         'an earlier program, over created / overwritten keys, beside a delete, after a restore, limit hit, reverse, empty), committed blocks '
+         'that delete a persisted key which a hook or succeeding command scanned after the delete, Finalize calls, reverts above / at / refused '
+         'below the finalized height. Distinct by digest of the whole history',
  'level_text': 'Model-based test of transaction atomicity and state-root derivation: after every ExecuteTransaction the response events '
-               '(identity, order, indexes, standard event) and the staged state (reads inside programs + full probe) must equal the model; after '
+               '(identity, order, indexes, standard event) and the staged state (reads and Iterate/Range results inside programs + full probe) must equal the model (scans are pure reads: a '
+               'scan after a staged write must neither show stale data nor change what is committed); after '
                'every Commit/Revert/Init the state DB dump, the returned root (= reference sparse-Merkle root over the live keys with tree key = '
                'store prefix || SHA256(key), value = SHA256(value)) and the tree-state record must equal the model / the engine tip - also '
                'across reorganisations 1-4 blocks deep with state-neutral blocks, where records kept per height for abandoned blocks (diffs) '
-               'must not influence a later Revert or recovery; Revert returns exactly the root before the block.',
+               'must not influence a later Revert or recovery; Revert returns exactly the root before the block. Finalize leaves state, root and '
+               'record as they are; Revert/recovery of blocks above the finalized height restore exactly; a Revert at or below it either restores '
+               'exactly or is refused with nothing changed.',
  'level_note': 'Sampled histories over a small key/value universe (2 stores x 5 keys x 6 values), reorganisations up to 4 blocks deep, recoveries '
-               'up to 4 blocks deep, Finalize (diff pruning) not called; Iterate/Range of the staged store are left to C12; '
+               'up to 4 blocks deep; Finalize has no caller in the pinned tree, the histories call it between blocks with heights 0-3 below the tip, '
+               'which of refusal/restoration happens at or below the finalized height is not asserted, recoveries are not sent below it; scans are '
+               'checked as seen by commands/hooks of the framework (the diffdb overlay algebra itself, larger key sets and limit 0 remain C12); '
                'reference SMT cross-checked against the real trie (TestRefSMTAgainstTrie).',
  'technique': 'property-based stateful testing (rapid) against a map model + reference sparse Merkle tree',
  'assumptions': ['snapshot/restore semantics = one overlay shared by all store handles (model in harness/c16/model_test.go)',
@@ -34,7 +51,9 @@ CHECK = {'level': 'exploration',
                  'ExecuteTransaction requests carry a Consensus message in generated histories (the in-process callers omit it: finding C16-F5)'],
  'quick': [{'pkg': 'c16', 'run': 'TestC16Histories|TestRegress', 'checks': 4000, 'timeout': 900},
            {'pkg': 'c16', 'run': 'TestRefSMTAgainstTrie', 'checks': 400, 'timeout': 300},
-           {'pkg': 'c16', 'run': 'TestC16Reorgs', 'checks': 1500, 'timeout': 900}],
+           {'pkg': 'c16', 'run': 'TestC16Reorgs', 'checks': 1500, 'timeout': 900},
+           {'pkg': 'c16', 'run': 'TestC16Scans', 'checks': 1200, 'timeout': 900}],
  'thorough': [{'pkg': 'c16', 'run': 'TestC16Histories|TestRegress', 'checks': 25000, 'shards': 15, 'timeout': 2400},
               {'pkg': 'c16', 'run': 'TestRefSMTAgainstTrie', 'checks': 5000, 'shards': 1, 'timeout': 2400},
-              {'pkg': 'c16', 'run': 'TestC16Reorgs', 'checks': 12000, 'shards': 6, 'timeout': 2400}]}
+              {'pkg': 'c16', 'run': 'TestC16Reorgs', 'checks': 12000, 'shards': 6, 'timeout': 2400},
+              {'pkg': 'c16', 'run': 'TestC16Scans', 'checks': 12000, 'shards': 4, 'timeout': 2400}]}
